@@ -688,8 +688,11 @@ func genDML(r *lib.RNG) caseT {
 	var cs caseT
 	cs.Kind = "dml"
 	npk := r.Range(3, 7)
+	curA := map[int]string{} // best-effort view of column a per primary key, to aim lookups at the OLD value
 	for pk := 1; pk <= npk; pk++ {
-		cs.Rows = append(cs.Rows, fmt.Sprintf("(%d,%s,%s)", pk, v(), v()))
+		a := v()
+		curA[pk] = a
+		cs.Rows = append(cs.Rows, fmt.Sprintf("(%d,%s,%s)", pk, a, v()))
 	}
 	lookup := func() string {
 		switch r.Intn(5) {
@@ -708,21 +711,45 @@ func genDML(r *lib.RNG) caseT {
 	n := r.Range(2, 6)
 	for i := 0; i < n; i++ {
 		pk := r.Range(1, npk+1)
+		old, known := curA[pk]
+		na := v()
 		switch r.Intn(7) {
 		case 0:
-			cs.Stmts = append(cs.Stmts, fmt.Sprintf("UPDATE %%T SET a = %s WHERE pk = %d", v(), pk))
+			cs.Stmts = append(cs.Stmts, fmt.Sprintf("UPDATE %%T SET a = %s WHERE pk = %d", na, pk))
+			if known {
+				curA[pk] = na
+			}
 		case 1:
-			cs.Stmts = append(cs.Stmts, fmt.Sprintf("UPDATE %%T SET a = %s, b = %s WHERE pk = %d", v(), v(), pk))
+			cs.Stmts = append(cs.Stmts, fmt.Sprintf("UPDATE %%T SET a = %s, b = %s WHERE pk = %d", na, v(), pk))
+			if known {
+				curA[pk] = na
+			}
 		case 2:
-			cs.Stmts = append(cs.Stmts, fmt.Sprintf("REPLACE INTO %%T VALUES (%d,%s,%s)", pk, v(), v()))
+			cs.Stmts = append(cs.Stmts, fmt.Sprintf("REPLACE INTO %%T VALUES (%d,%s,%s)", pk, na, v()))
+			curA[pk] = na
 		case 3:
-			cs.Stmts = append(cs.Stmts, fmt.Sprintf("INSERT INTO %%T VALUES (%d,%s,%s) ON DUPLICATE KEY UPDATE a = %s", pk, v(), v(), v()))
+			ins := v()
+			cs.Stmts = append(cs.Stmts, fmt.Sprintf("INSERT INTO %%T VALUES (%d,%s,%s) ON DUPLICATE KEY UPDATE a = %s", pk, ins, v(), na))
+			if known {
+				curA[pk] = na
+			} else {
+				curA[pk] = ins
+			}
 		case 4:
-			cs.Stmts = append(cs.Stmts, fmt.Sprintf("INSERT INTO %%T VALUES (%d,%s,%s) ON DUPLICATE KEY UPDATE a = VALUES(a), b = b", pk, v(), v()))
+			cs.Stmts = append(cs.Stmts, fmt.Sprintf("INSERT INTO %%T VALUES (%d,%s,%s) ON DUPLICATE KEY UPDATE a = VALUES(a), b = b", pk, na, v()))
+			curA[pk] = na
 		case 5:
 			cs.Stmts = append(cs.Stmts, fmt.Sprintf("DELETE FROM %%T WHERE pk = %d", pk))
+			delete(curA, pk)
 		default:
 			cs.Stmts = append(cs.Stmts, fmt.Sprintf("UPDATE %%T SET b = %s WHERE a = %d", v(), r.Intn(5)))
+		}
+		if known && old != "NULL" {
+			// the value the row had BEFORE the statement: a stale index entry would still find it
+			cs.Stmts = append(cs.Stmts, "?a = "+old)
+			if r.Chance(1, 2) {
+				cs.Stmts = append(cs.Stmts, "?a = "+old+" AND b >= 0")
+			}
 		}
 		cs.Stmts = append(cs.Stmts, lookup())
 		if r.Chance(1, 2) {
